@@ -297,6 +297,9 @@ def run(ck):
         panics = [e for _, e in t.events() if e[2] == "panic" or (e[2] == "cmd.done" and e[3] == "panic")]
         if panics:
             problems.append(("panic", "a session or background pass panicked: %s" % panics[0][3]))
+        late = [x for x in S.scan_pin_oracle(t) if "fetched after" in x["what"]]
+        if late:
+            problems.append(("scan", "executor-level scan: %s" % json.dumps(late[0])))
         if t.reopen_status != "ok":
             problems.append(("reopen", "the database does not reopen: %s" % t.reopen_status))
         elif {k: N.rows_of(v) for k, v in t.reopen.items()} != {k: N.rows_of(v) for k, v in t.final.items()}:
@@ -315,6 +318,8 @@ def run(ck):
                     cands = lost | ({SIG_DROP_BOUND, SIG_DROP_CP, SIG_DEL_DEL, SIG_DELETE_DV} & sh)
                 elif kind == "panic":
                     cands = {x for x in sh if x in (SIG_DROP_CP, SIG_DROP_BOUND, SIG_DELETE_DV) or x.startswith("panic:")}
+                elif kind == "scan":
+                    cands = set()
                 elif kind == "reopen":
                     cands = {SIG_CREATE, SIG_DROP_INS, SIG_DROP_CP_ORPHAN} & sh
                 else:   # reopen-state
